@@ -152,6 +152,8 @@ func (r *c20run) scenario(x *vs.X) func(end, msg string) error {
 		conf = map[string]any{"type": "grpc/scenario", "file": "/gsc20.yaml", "limit": c.Shots}
 	case "sfail":
 		conf = map[string]any{"type": "grpc/scenario", "file": "/gsc20f.yaml", "limit": c.Shots}
+	case "snames":
+		conf = map[string]any{"type": "grpc/scenario", "file": "/gsc20n.yaml", "limit": c.Shots}
 	case "sfail-method":
 		conf = map[string]any{"type": "grpc/scenario", "file": "/gsc20u.yaml", "limit": c.Shots}
 	case "sfail-type":
@@ -197,7 +199,7 @@ func (r *c20run) scenario(x *vs.X) func(end, msg string) error {
 	var guns []gunLike
 	for i := 0; i < c.Instances; i++ {
 		deps := core.GunDeps{Ctx: context.Background(), Log: nop, PoolID: "p", InstanceID: i}
-		if c.Mode == "scenario" || c.Mode == "scodes" || strings.HasPrefix(c.Mode, "sfail") {
+		if c.Mode == "scenario" || c.Mode == "scodes" || c.Mode == "snames" || strings.HasPrefix(c.Mode, "sfail") {
 			g := grpcscenario.NewGun(grpcscenario.GunConfig{Target: "t", Timeout: timeout})
 			grpcscenario.ZvBind(g, gAgg{&r.samples}, deps, grpcdynamic.NewStub(ch), services)
 			guns = append(guns, g)
@@ -254,6 +256,8 @@ func (r *c20run) scenario(x *vs.X) func(end, msg string) error {
 			return r.checkScenario()
 		case "sfail", "sfail-method", "sfail-type":
 			return r.checkFail()
+		case "snames":
+			return r.checkNames()
 		case "codes":
 			return r.checkCodes()
 		case "scodes":
@@ -470,6 +474,82 @@ scenarios:
 // not fit the method's input type: a failed sample for that call, nothing sent, the first call undisturbed
 var c20unknownYAML = strings.Replace(strings.Replace(c20failYAML, "partial{{index .source.users 99}}", "x", 1), "call: target.TargetService.Hello\n    metadata: {part: m}", "call: target.TargetService.Nope\n    metadata: {part: m}", 1)
 var c20illTypedYAML = strings.Replace(c20failYAML, `'{"name": "partial{{index .source.users 99}}"}'`, `'{"name": {"nested": 5}}'`, 1)
+
+// c20namesYAML: two scenarios whose names and call names join to the same text (shop + cart_add,
+// shop_cart + add) and a metadata key that is called like the other rendered part of a call (payload).
+const c20namesYAML = `variable_sources:
+  - name: users
+    type: file/csv
+    file: /users.csv
+    fields: [user_id, name]
+    ignore_first_line: true
+    delimiter: ','
+calls:
+  - name: cart_add
+    tag: t1
+    call: target.TargetService.Hello
+    metadata:
+      who: shop
+      payload: 'meta-{{.request.cart_add.preprocessor.u}}'
+    payload: '{"name": "first-{{.request.cart_add.preprocessor.u}}"}'
+    preprocessors:
+      - type: prepare
+        mapping:
+          u: source.users[next].name
+  - name: add
+    tag: t2
+    call: target.TargetService.Hello
+    metadata:
+      who: cart
+      payload: 'other-{{.request.add.preprocessor.u}}'
+    payload: '{"name": "second-{{.request.add.preprocessor.u}}"}'
+    preprocessors:
+      - type: prepare
+        mapping:
+          u: source.users[next].name
+scenarios:
+  - name: shop
+    requests: [cart_add]
+  - name: shop_cart
+    requests: [add]
+`
+
+// checkNames: every call is rendered from its own scenario's and its own call's templates.
+func (r *c20run) checkNames() error {
+	c := r.cell
+	if len(r.calls) != c.Shots {
+		return fmt.Errorf("CALLS: %d calls for %d shots of one-call scenarios", len(r.calls), c.Shots)
+	}
+	cnt := map[string]int{}
+	for i, g := range r.calls {
+		var m struct{ Name string }
+		_ = json.Unmarshal([]byte(g.JSON), &m)
+		kind, row, _ := strings.Cut(m.Name, "-")
+		who := map[string]string{"first": "shop", "second": "cart"}[kind]
+		mp := map[string]string{"first": "meta-", "second": "other-"}[kind] + row
+		if who == "" || len(row) != 1 {
+			return fmt.Errorf("MESSAGE: call %d sent as %s; the two calls' payloads are {\"name\": \"first-<row>\"} and {\"name\": \"second-<row>\"}", i, g.JSON)
+		}
+		if ks := mdKeys(g.MD); ks != "payload,who" || g.MD.Get("who")[0] != who || g.MD.Get("payload")[0] != mp {
+			return fmt.Errorf("METADATA: call %d (%s) carries metadata %v, its entry defines who=%s payload=%s", i, g.JSON, g.MD, who, mp)
+		}
+		cnt[kind]++
+	}
+	if c.Shots%2 == 0 && cnt["first"] != cnt["second"] {
+		return fmt.Errorf("MESSAGE: %d shots of two scenarios of equal weight sent %d x cart_add's and %d x add's message", c.Shots, cnt["first"], cnt["second"])
+	}
+	tags := map[string]int{}
+	for _, s := range r.samples {
+		tags[s.Tag]++
+		if s.Proto != 200 {
+			return fmt.Errorf("SAMPLES: an answered call is reported with code %d", s.Proto)
+		}
+	}
+	if len(r.samples) != c.Shots || tags["shop.t1"] != cnt["first"] || tags["shop_cart.t2"] != cnt["second"] {
+		return fmt.Errorf("SAMPLES: %d shots reported as %v", c.Shots, tags)
+	}
+	return nil
+}
 
 func mdKeys(md metadata.MD) string {
 	ks := make([]string, 0, len(md))
@@ -692,6 +772,10 @@ func c20cells(thorough bool) []C20Cell {
 		out = append(out, C20Cell{Mode: "scenario", TimeoutMs: 0, Instances: 3, Shots: 4, Bound: 1})
 	}
 	for _, shots := range []int{1, 2, 3} {
+		if shots != 3 {
+			out = append(out, C20Cell{Mode: "snames", TimeoutMs: 2000, Instances: 1, Shots: 2 * shots})
+			out = append(out, C20Cell{Mode: "snames", TimeoutMs: 2000, Instances: 2, Shots: 2 * shots, Bound: 1})
+		}
 		for _, mode := range []string{"sfail", "sfail-method", "sfail-type"} {
 			out = append(out, C20Cell{Mode: mode, TimeoutMs: 2000, Instances: 1, Shots: shots})
 			if shots > 1 {
@@ -848,6 +932,7 @@ func runC20(t interface{ Fatal(...any) }, spec *hutil.Spec, out *hutil.Out, e *v
 	_ = afero.WriteFile(memfs, "/gsc20.yaml", []byte(c20scenarioYAML), 0o644)
 	_ = afero.WriteFile(memfs, "/gsc20f.yaml", []byte(c20failYAML), 0o644)
 	_ = afero.WriteFile(memfs, "/gsc20u.yaml", []byte(c20unknownYAML), 0o644)
+	_ = afero.WriteFile(memfs, "/gsc20n.yaml", []byte(c20namesYAML), 0o644)
 	_ = afero.WriteFile(memfs, "/gsc20t.yaml", []byte(c20illTypedYAML), 0o644)
 	_ = afero.WriteFile(memfs, "/gsc19.yaml", []byte(c19grpcScenarioYAML), 0o644)
 	if spec.Worker == 0 && spec.Replay == nil {
@@ -866,7 +951,7 @@ func runC20(t interface{ Fatal(...any) }, spec *hutil.Spec, out *hutil.Out, e *v
 		if spec.Property == "C19" && c.Mode != "codes" && c.Mode != "scodes" && !strings.HasPrefix(c.Mode, "sfail") {
 			continue
 		}
-		if spec.Property == "C10" && c.Mode != "scodes" && !strings.HasPrefix(c.Mode, "sfail") && c.Mode != "scenario" && c.Mode != "codes" {
+		if spec.Property == "C10" && c.Mode != "scodes" && !strings.HasPrefix(c.Mode, "sfail") && c.Mode != "snames" && c.Mode != "scenario" && c.Mode != "codes" {
 			continue // C10: one sample per call / executed step with the code it has when it is reported
 		}
 		if out.OverBudget() {
